@@ -33,7 +33,7 @@ func canonKey(v value) (interface{}, bool) {
 	switch x := v.(type) {
 	case bool, int, int8, int16, int32, int64, uint, uint8, uint16, uint32, uint64, uintptr, float32, float64, string, *value, chan value:
 		return x, true
-	case sym, *symstr, *fdstr, *ropestr:
+	case sym, *symstr, *fdstr, *ropestr, *decTerm:
 		return nil, false
 	case structure:
 		var sb strings.Builder
